@@ -37,7 +37,7 @@ func init() {
 				}
 				ts = append(ts, Task{Pkg: "qrcode", Func: "VerifC15Refused", Args: ints(ni), Note: "unrepresentable text and unknown names are refused"})
 			}
-			leads := []int64{0x81, 0x88, 0x9f, 0xe0, 0xea, 0xeb}
+			leads := []int64{0x81, 0x88, 0x9f, 0xe0, 0xe9, 0xea}
 			if thorough {
 				leads = nil
 				for b := int64(0x81); b <= 0xeb; b++ {
@@ -63,7 +63,7 @@ func init() {
 			}
 		},
 		Exhaustive:  func(tier string) bool { return false },
-		Outside:     []string{"double-byte ranges of GB18030, Big5, EUC-KR (the x/text tables are outside the encoded code; only their single-byte rows are exercised concretely); Shift_JIS double-byte rows other than lead bytes 81, 88, 9F, E0, EA, EB in the quick tier (all rows in thorough, concretely, through Kanji mode)", "the charset guess (StringUtils_guessCharset) beyond valid UTF-8 input and the Latin-1 cases above", "Data Matrix / Aztec ECI handling (C06 covers their totality)"},
+		Outside:     []string{"double-byte ranges of GB18030, Big5, EUC-KR (the x/text tables are outside the encoded code; only their single-byte rows are exercised concretely); Shift_JIS double-byte rows other than lead bytes 81, 88, 9F, E0, E9, EA in the quick tier (all rows in thorough, concretely, through Kanji mode)", "the charset guess (StringUtils_guessCharset) beyond valid UTF-8 input and the Latin-1 cases above", "Data Matrix / Aztec ECI handling (C06 covers their totality)"},
 		Stubs:       []string{"generateECBytes / correctErrors stubbed in the symbolic tasks (qrStubs)", "golang.org/x/text codecs: native on concrete bytes; Latin-1 / UTF-8 / ASCII models on symbolic bytes"},
 		Assumptions: commonAssumptions,
 	}
